@@ -62,7 +62,7 @@ VALUES = {
     "glyphmap_generator": ["my_glyphmap"],
     "color_format": ["glyf_colr_0", "picosvg", "picosvgz", "cff_colr_1", "glyf", "cff2_colr_0", "cff_colr_0", "cff2_colr_1"],
 }
-FAMILY_OF = {"vector": "glyf_colr_1", "otsvg": "picosvg", "bitmap": "cbdt"}
+FAMILY_OF = {"vector": "glyf_colr_1", "otsvg": "picosvg", "bitmap": "cbdt", "cff2": "cff2_colr_1"}  # "cff2": written to an .otf file
 APPLIES = {
     "clipbox_quantization": ["vector"], "bitmap_resolution": ["bitmap"], "reuse_tolerance": ["vector", "otsvg"], "clip_to_viewbox": ["vector", "otsvg"],
     "pretty_print": ["otsvg"], "transform": ["vector", "otsvg"], "use_pngquant": ["bitmap"], "use_zopflipng": ["bitmap"], "color_format": ["vector"],
@@ -136,6 +136,9 @@ def enumerate_cases(tier):
             # every colour format once on every run (alternating flag / file): each is one table entry in the tool
             for k, v1 in enumerate(vals):
                 yield {"t": "single", "field": field, "family": fams[0], "channel": ("flag", "file")[k % 2], "value": v1, "other": vals[(k + 1) % len(vals)]}
+    # CFF2 outlines (an .otf output): glyph names can only live in post there
+    for ch, val in (("none", False), ("flag", True), ("both", False), ("file", True)):
+        yield {"t": "single", "field": "keep_glyph_names", "family": "cff2", "channel": ch, "value": val, "other": not val}
     for opt in sorted(PAIR_OPTIONS):
         fam, vals = PAIR_OPTIONS[opt]
         for share in (("all",) if tier == "quick" else ("all", "partial")):
@@ -249,6 +252,8 @@ def build_single(ws, case):
     base = {"color_format": FAMILY_OF[case["family"]]}
     if case["family"] == "bitmap" and f != "bitmap_resolution":
         base["bitmap_resolution"] = 40
+    if case["family"] == "cff2" and f != "output_file":
+        base["output_file"] = "Font.otf"  # the extension decides the outline flavour
     file_opts = dict(base)
     flags_ = {}
     if ch == "flag":
@@ -344,10 +349,10 @@ def judge_single(case, v):
         if fmt.startswith("picosvg") and bool(o.get("svg_compressed")) != fmt.endswith("z"):
             bad("SVG compression", o.get("svg_compressed"), fmt)
         exp_post = 2 if eff["keep_glyph_names"] else 3
-        if outline != "glyf":
-            pass
+        if outline == "CFF ":
+            pass  # CFF 1 keeps glyph names in its own charset; post is nameless either way
         elif o["post"] != exp_post:
-            bad("post format", o["post"], exp_post)
+            bad("post format", o["post"], exp_post)  # glyf and CFF2: the names live in post, or nowhere
         if eff["keep_glyph_names"] and outline == "glyf":
             exp_name = "custom_1f600" if eff["glyphmap_generator"] == "my_glyphmap" else "g_1f600"
             if exp_name not in o["names"]:
